@@ -59,11 +59,38 @@ theorem C04_inside_callbacks_reads_owners (s : State) (src : Nat) (t : HV) (hp :
 
 /-- … and that situation (`CbP`: invariant + lending) is maintained by every action of every
 callback script, whatever the API (`with_arc`, `with_raw_offset_arc`, `with_arc_mut` incl. replacing
-the Arc), also when the script ends in a panic -/
+the Arc or swapping it with another one), also when the script ends in a panic -/
 theorem C04_inside_callbacks_maintained (api : CbApi) (src : Nat) (script : List CbAct) (s : State) (t : HV)
     (acc : String) (hp : CbP src s t) : ∃ t', CbP src (runCb api src script s t acc).1 t' :=
   runCb_ind api src (CbP src) (fun _ _ _ _ _ h hk hc => h.cloneTo hk hc api) (fun _ _ _ h hk _ => h.cloneArc hk)
-    (fun _ _ v h => h.write v) (fun _ _ _ _ h hne hk _ => h.repl hne hk) script s t acc hp
+    (fun _ _ v h => h.write v) (fun _ _ _ _ h hne hk _ => h.repl hne hk)
+    (fun _ _ _ _ h hne hk _ _ => h.swap hne hk) script s t acc hp
+
+/-- **`mem::swap` inside `with_arc_mut` is neutral**: the action `swapWith k` (the callback swaps the
+lent `Arc` with one made from the ThinArc of slot `k`, and puts what it got back into slot `k`) changes
+no memory at all — no count word, no event —, keeps the number of owners of every block, and the two
+slots end up holding each other's allocation -/
+theorem C04_cb_swap_neutral (s : State) (hi : Inv s) (src k : Nat) (hs h2 t : HV) (rest : List CbAct)
+    (acc : String) (hls : lookup s src = some hs) (hlk : lookup s k = some h2) (hne : k ≠ src)
+    (hthin : h2.kind = .thin) (hbt : hs.blk = t.blk) :
+    ∃ s', runCb .thinWithArcMut src (.swapWith k :: rest) s t acc =
+        runCb .thinWithArcMut src rest s' (ThinArc.thick s.mem h2) (acc ++ "swapped;") ∧
+      s'.mem = s.mem ∧ (∀ b, owners s' b = owners s b) ∧
+      (∃ x, lookup s' src = some x ∧ x.kind = .thin ∧ x.blk = h2.blk) ∧
+      (∃ y, lookup s' k = some y ∧ y.kind = .thin ∧ y.blk = hs.blk) := by
+  refine ⟨(s.set s.mem k (ThinArc.of_arc t)).set s.mem src (ThinArc.of_arc (ThinArc.thick s.mem h2)),
+    by simp [runCb, hne, hlk, hthin], rfl, ?_, ?_, ?_⟩
+  · intro b
+    exact ownersL_swap (hk' := ThinArc.of_arc t) (hs' := ThinArc.of_arc (ThinArc.thick s.mem h2)) hi.keys
+      (lookup_mem hls) (lookup_mem hlk) hne hbt.symm rfl b
+  · have hk1 : ((setL (setL s.slots k (ThinArc.of_arc t)) src
+        (ThinArc.of_arc (ThinArc.thick s.mem h2))).map (·.1)).Nodup := by
+      rw [keys_setL, keys_setL]; exact hi.keys
+    exact ⟨_, mem_lookupL hk1 (mem_setL_new (mem_setL_of_ne (lookup_mem hls) (fun e => hne e.symm))), rfl, rfl⟩
+  · have hk1 : ((setL (setL s.slots k (ThinArc.of_arc t)) src
+        (ThinArc.of_arc (ThinArc.thick s.mem h2))).map (·.1)).Nodup := by
+      rw [keys_setL, keys_setL]; exact hi.keys
+    exact ⟨_, mem_lookupL hk1 (mem_setL_of_ne (mem_setL_new (lookup_mem hlk)) hne), rfl, hbt.symm⟩
 
 /-- the `cnt` action prints exactly that count -/
 theorem C04_cb_cnt_prints_count (api : CbApi) (src : Nat) (rest : List CbAct) (s : State) (t : HV) (acc : String) :
